@@ -196,7 +196,8 @@ def finish(col: Collector, tier: str, seed: int, t0: float, prog_stats: Dict[str
     with open(os.path.join(ev_dir, f"{prop}.json"), "w") as f:
         json.dump(evidence, f, indent=1, default=str)
     if new_viols:
-        print(f"VIOLATION property={prop} replay={replay_path}")
+        if not quiet:  # quiet = self-test on a scratch variant: its reports must never look like a verdict on /repo
+            print(f"VIOLATION property={prop} replay={replay_path}")
         return 1
     if not quiet:
         print(f"OK property={prop}: {len(oks)} obligations discharged, {len(known_hits)} known finding(s), {len(unres)} unresolved (reported, not failed)")
